@@ -425,6 +425,17 @@ func (r *Reconciler) reconcileAbort(ctx context.Context, proposal *configapi.Pro
 			return controller.Result{}, nil
 		}
 
+		// If the abort has to wait for the previous proposal to be applied, make sure that one is reconciled.
+		if proposal.Status.Phases.Abort.State == configapi.ProposalAbortPhase_ABORTING &&
+			proposal.Status.PrevIndex != 0 && config.Status.Applied.Index != proposal.Status.PrevIndex {
+			return controller.Result{Requeue: controller.NewID(proposalstore.NewID(proposal.TargetID, proposal.Status.PrevIndex))}, nil
+		}
+	case configapi.ProposalAbortPhase_ABORTED:
+		if proposal.Status.NextIndex != 0 {
+			return controller.Result{
+				Requeue: controller.NewID(proposalstore.NewID(proposal.TargetID, proposal.Status.NextIndex)),
+			}, nil
+		}
 	}
 	return controller.Result{}, nil
 }
